@@ -84,6 +84,12 @@ CLAIMED.update({
                 note="Trusted: z3, vx/rvsem.py (RV32IM + float moves/loads/stores), vx/refprog.py for the source. A canonicalization/lowering that raises a diagnostic is counted as reported failure. Outside: scf lowering, float programs, snitch extensions, assembly text."),
 })
 
+CLAIMED.update({
+    "C19": dict(cat="translation_validation", design="DESIGN.md §4 C19",
+                text="Translation validation (M3): riscv-level functions with unallocated registers (high register pressure, pre-assigned registers, zero register, values live across loops, nested riscv_scf.for) are allocated by the real RegisterAllocatorLivenessBlockNaive with the default and three reduced register pools; the SSA dataflow meaning and the execution of the allocated ops on a register file are both computed on SYMBOLIC argument registers and li immediates (loops fork on their exit tests) and z3 decides equal results and memory for all inputs - two live values sharing a register make them differ. The x86 allocator is exercised through C21's pipeline obligations.",
+                note="Trusted: z3, vx/rvsem.py, the riscv_scf.for semantics stated in the evidence. Single-block functions only (the allocator rejects others); trip counts <= 4."),
+})
+
 NOT_APPLICABLE = {
     "C05": "custom assembly formats: the quantifier is over ~80 dialects' op definitions/format programs; no data dimension for a solver beyond what C04/C06 cover for leaves (DESIGN §5)",
     "C17": "pass x corpus-module cross product: deciding it means running each pair concretely; no symbolic dimension (DESIGN §5)",
